@@ -770,7 +770,118 @@ def rule_axes_growth(ctx):
     ctx.info('R10: %d checked growth sites' % n)
 
 
+def unguarded_end_reads(t, known, is_read, fact):
+    """first / last element reads inside the value term `t` that are evaluated without a preceding non-emptiness fact, following the short-circuit order of
+    and / or / if-expressions. `known`: containers already known non-empty; is_read(sub_term) -> container or None; fact(atom, polarity) -> container or None."""
+    out = []
+
+    def walk(x, known):
+        if not isinstance(x, tuple) or not x:
+            return
+        if x[0] == 'boolop':
+            k = list(known)
+            for op in x[2]:
+                walk(op, k)
+                f = fact(op, x[1] == 'and')
+                if f is not None:
+                    k.append(f)
+            return
+        if x[0] == 'ifexp':
+            walk(x[1], known)
+            ft, ff = fact(x[1], True), fact(x[1], False)
+            walk(x[2], known + ([ft] if ft is not None else []))
+            walk(x[3], known + ([ff] if ff is not None else []))
+            return
+        c = is_read(x)
+        if c is not None and c not in known:
+            out.append(x)
+        for y in x[1:]:
+            if isinstance(y, tuple):
+                if y and isinstance(y[0], str):
+                    walk(y, known)
+                else:
+                    for z in y:
+                        if isinstance(z, tuple):
+                            walk(z if (z and isinstance(z[0], str)) else (z[1] if len(z) == 2 and isinstance(z[1], tuple) else ()), known)
+    walk(t, list(known))
+    return out
+
+
+def rule_array1d_equiv(ctx):
+    """R13: the (name, labels) / bare-labels shortcut forms are recognised by is_array1d_equiv, which looks at the first element of the candidate: an empty
+    list of labels is a 1-d sequence too (first element only read where there is one)."""
+    from .c06 import _nonempty_fact
+    ctx.rule('R13', 'is_array1d_equiv: the first element is only inspected when there is one (an empty label list is 1-d array equivalent)', 1)
+    fi = ctx.fn('dimarray.tools.is_array1d_equiv')
+    A = P_('a')
+    ARR = ('call', ('attr', ('name', 'np'), 'asarray'), (A,), ())
+
+    def is_read(x):
+        if x[0] == 'sub' and x[2] in (const(0), const(-1)) and x[1] in (ARR, A):
+            return ARR
+        return None
+
+    def fact(atom, pol):
+        f = _nonempty_fact(atom, pol)
+        return ARR if f in (ARR, A) else None
+    ev = run(ctx, fi, mode='fork')
+    bad = None
+    n = 0
+    for p in ev.paths:
+        known = [f for f in (fact(a, pol) for a, pol in p.guards) if f is not None]
+        # recursion on the single element of a one-element list is guarded by len(a) == 1
+        known_a = known + ([ARR] if any(a == T.mkcmp('==', ('call', ('name', 'len'), (A,), ()), const(1)) and pol for a, pol in p.guards) else [])
+        for src in [p.value] + [a for a, pol in p.guards]:
+            if src is None:
+                continue
+            n += 1
+            r = unguarded_end_reads(src, known_a, is_read, fact)
+            if r and bad is None:
+                bad = (p, r[0])
+    if bad is not None:
+        ctx.violated('R13', fi, 'first element read ' + T.show(bad[1]), 'the candidate\'s first element (%s) is inspected without testing that there is one: for an empty list the IndexError is '
+                     'swallowed by the bare except and the answer is False, so the documented shortcut forms fail for an empty axis (DimArray([], axes=(\'x\', [])) raises TypeError, '
+                     'DimArray([], axes=[], dims=\'x\') a shape mismatch) although the reference form axes=[(\'x\', [])] works' % T.show(bad[1]), node=bad[0].node)
+    else:
+        ctx.holds('R13', 'is_array1d_equiv: first-element reads are guarded (%d terms inspected)' % n)
+
+
+def rule_from_shape(ctx):
+    """R12: "data whose shape disagrees with the axes ... are rejected with an exception" - the default-label form (values + dims only): Axes.from_shape builds one
+    axis per shape entry and picks dims[i]; a list of dimension names of another length than the shape disagrees with the data and must be refused
+    (surplus names were silently dropped)."""
+    ctx.rule('R12', 'Axes.from_shape: number of dimension names equals the number of dimensions', 2)
+    fi = ctx.fn(AX + 'Axes.from_shape')
+    DIMS, SHAPE = P_('dims'), P_('shape')
+
+    def lens(a):
+        """polarity-normalised: does atom a compare len(dims) with len(shape) (or len(axes built so far))? returns '==' / '!=' / None"""
+        if a[0] == 'cmp' and a[1] in ('==', '!='):
+            pair = {T.show(a[2]), T.show(a[3])}
+            if pair == {'len(dims)', 'len(shape)'} or pair == {'len(dims)', 'np.ndim(shape)'}:
+                return a[1]
+        return None
+    ev = run(ctx, fi, mode='fork', facts={T.mkcmp('is', DIMS, T.CONST_NONE): False})
+    named = [p for p in ret_paths(ev)]
+    ctx.require('R12', named, 'from_shape: no returning path with dims given')
+    bad = None
+    for p in named:
+        eq = [(lens(a) == '==') == pol for a, pol in p.guards if lens(a)]
+        if eq != [True] and True not in eq:
+            bad = p
+    rej = [p for p in raise_paths(ev) if any(lens(a) and ((lens(a) == '==') != pol) for a, pol in p.guards)]
+    if bad is not None:
+        ctx.violated('R12', fi, 'dims[i] for i in range(len(shape))', 'the dimension names are picked by position for each entry of the shape without comparing their number with the number '
+                     'of dimensions: DimArray(np.zeros((2, 3)), dims=[\'x\', \'y\', \'z\']) and zeros(shape=(2, 3), dims=[...three...]) silently drop the surplus name '
+                     'instead of rejecting data that disagree with the axes', node=(bad.node if bad is not None else fi.node))
+    else:
+        ctx.holds('R12', 'from_shape: returns only when len(dims) == len(shape)')
+        ctx.holds('R12', 'from_shape: %s otherwise' % ('raises ' + exc_name(rej[0].value) if rej else 'no normal return (assert)'))
+
+
 def check(ctx):
+    rule_from_shape(ctx)
+    rule_array1d_equiv(ctx)
     rule_constructor(ctx)
     rule_who_may_write(ctx)
     rule_setter_guards(ctx)
